@@ -43,6 +43,7 @@ def litD (text : Bytes) (v : Bytes) (neg caseless : Bool) (d : Data) : Option Da
 def rangeLoopD (text : Bytes) (lo hi : Bytes) (neg : Bool) (d : Data) : Nat → Option Data
   | 0 => none
   | k + 1 =>
+    if readAt text d.pos (lo.length + k) == [] then rangeLoopD text lo hi neg d k else
     if (inRange lo hi (readAt text d.pos (lo.length + k)) && !neg) ||
         (!(inRange lo hi (readAt text d.pos (lo.length + k))) && neg) then some (consumeD text d (lo.length + k))
     else rangeLoopD text lo hi neg d k
@@ -66,6 +67,7 @@ def classD (text : Bytes) (c : Class) (neg : Bool) (d : Data) : Option Data :=
   | .upper => rangeD text [65] [90] neg d
   | .lower => rangeD text [97] [122] neg d
   | .letter =>
+    if readAt text d.pos 1 == [] then none else
     if inRange [97] [122] (readAt text d.pos 1) || inRange [65] [90] (readAt text d.pos 1) then
       (if neg then none else some (consumeD text d 1))
     else (if neg then some (consumeD text d 1) else none)
